@@ -320,6 +320,77 @@ func scannerSets(c *Ctx, rule string) {
 			extra = " and on the delimiter parameter"
 		}
 		c.check(okSet, rule, "scanner:"+name, fn.Pos(), fmt.Sprintf("%s goes on exactly over the bytes %s (expected %s)%s", name, got.String(), exp.String(), extra))
+		// the loop is the only way forward: every returned offset (and every offset handed to an in-package line-end
+		// helper) is built from the offs parameter, the loop's index and constants — not from a library search
+		// (bytes.IndexByte and friends skip bytes the loop's byte test would have stopped at)
+		inProg := map[ssa.Value]bool{}
+		var allowed func(v ssa.Value, depth int) bool
+		allowed = func(v ssa.Value, depth int) bool {
+			if depth > 40 {
+				return false
+			}
+			if inProg[v] {
+				return true // coinductive: a loop-carried index is built from itself plus allowed steps
+			}
+			if _, isPhi := v.(*ssa.Phi); isPhi {
+				inProg[v] = true
+				defer delete(inProg, v)
+			}
+			switch x := v.(type) {
+			case *ssa.Const:
+				return true
+			case *ssa.Parameter:
+				return isIntType(x.Type())
+			case *ssa.Phi:
+				for _, e := range x.Edges {
+					if e != ssa.Value(x) && !allowed(e, depth+1) {
+						return false
+					}
+				}
+				return true
+			case *ssa.BinOp:
+				return (x.Op == token.ADD || x.Op == token.SUB) && allowed(x.X, depth+1) && allowed(x.Y, depth+1)
+			case *ssa.Convert:
+				return allowed(x.X, depth+1)
+			case *ssa.Extract:
+				call, ok := x.Tuple.(*ssa.Call)
+				if !ok {
+					return false
+				}
+				cal := call.Call.StaticCallee()
+				if cal == nil || cal.Pkg == nil || cal.Pkg.Pkg != c.Prog.Types {
+					return false
+				}
+				for _, a := range call.Call.Args {
+					if isIntType(a.Type()) && !allowed(a, depth+1) {
+						return false
+					}
+				}
+				return true
+			}
+			return false
+		}
+		okRet, nRet := true, 0
+		var badPos token.Pos
+		for _, b := range fn.Blocks {
+			r, ok := b.Instrs[len(b.Instrs)-1].(*ssa.Return)
+			if !ok {
+				continue
+			}
+			for _, res := range r.Results {
+				if isIntType(res.Type()) {
+					nRet++
+					if !allowed(res, 0) {
+						okRet = false
+						badPos = r.Pos()
+					}
+				}
+			}
+		}
+		if !badPos.IsValid() {
+			badPos = fn.Pos()
+		}
+		c.check(okRet && nRet > 0, rule, "scanner-offset:"+name, badPos, fmt.Sprintf("every integer result of %s (%d) is built from the offs parameter, the scanning loop's index, constants and in-package helpers applied to those; no other search advances the offset", name, nRet))
 	}
 }
 
@@ -333,7 +404,7 @@ func init() {
 			{"S2", "look-ahead budget: every index in ParseFLine is discharged by the index-guard rules (14-byte minimum, Prefix summary)", func(c *Ctx) { ruleGFor(c, "S2", map[string]bool{"ParseFLine": true}) }},
 			{"S3", "MethodNo = GetMethodNo(Method.Get(buf)) right after the method token is closed and found non-empty; the method table is searched with bytes.Equal over the whole name (case-sensitive), miss = MOther", ruleS3},
 			{"S6", "the per-state path table of ParseFLine (for every state every path to a return: verdict set, returned offset, state left in the object, field actions; variables abstracted, conditions merged) equals the reviewed reference table committed under sa/ref/", func(c *Ctx) { pathRefRule(c, "S6", "ParseFLine", "fl") }},
-			{"S5", "exact byte sets of the token scanners the first line is cut with: skipToken goes on over exactly the bytes other than SP HT CR LF, skipWS over exactly SP HT, skipLine over everything but CR LF, skipTokenDelim like skipToken minus its delimiter parameter (exact byte set of buf[offs] at the loop's back edge; an unevaluable test leaves the full set and fails)", ruleS5},
+			{"S5", "exact byte sets of the token scanners the first line is cut with: skipToken goes on over exactly the bytes other than SP HT CR LF, skipWS over exactly SP HT, skipLine over everything but CR LF, skipTokenDelim like skipToken minus its delimiter parameter (exact byte set of buf[offs] at the loop's back edge; an unevaluable test leaves the full set and fails); every offset they return is built from offs, the loop index and constants only, so no other search skips bytes", ruleS5},
 			{"S4", "single-space grammar: Method and URI are closed only when the delimiter byte set is exactly {SP}, Version only on {CR, LF}; a reply is recognised by the 8-byte prefix \"SIP/2.0 \" including the space and its Version excludes that space", ruleS4},
 		},
 		Assumptions: []string{"skipToken stops at SP, HT, CR, LF or end of buffer (its loop condition)", "bytescase.Prefix summary"},
